@@ -86,26 +86,37 @@ Definition within (c r : path) : bool :=
        | Some (x :: _) => negb (str_eqb x dotdot)
        end.
 
+Inductive lres := LYes | LNo | LErr.          (* os.Lstat: found / no such entry (ENOENT, ENOTDIR) / any other error (ELOOP...) *)
+Inductive version := V0 | V1 | V2.            (* V0: original code; V1: after fix 726ea5fe (dangling link); V2: after fix f5147975 (Lstat error) *)
+Definition fix1 (v : version) : bool := match v with V0 => false | _ => true end.
+Definition fix2 (v : version) : bool := match v with V2 => true | _ => false end.
+Inductive epres := EFound (ex : list seg) | ENone | EClamp.
+
 Section Resolve.
-  Variable lstat : path -> bool.              (* os.Lstat(p) succeeds *)
+  Variable lstat : path -> lres.              (* os.Lstat(p) *)
   Variable evalsym : path -> option path.     (* filepath.EvalSymlinks(p) *)
 
-  (* the loop "Lstat(existing) else existing = Dir(existing)", on the reversed segments *)
-  Fixpoint existing_prefix (abs : bool) (rsegs : list seg) : option (list seg) :=
-    if lstat (abs, rev rsegs) then Some (rev rsegs)
-    else match rsegs with [] => None | _ :: r => existing_prefix abs r end.
+  (* the loop "Lstat(existing) else existing = Dir(existing)", on the reversed segments; since V2 an
+     Lstat failure other than "no such entry" stops the walk and clamps *)
+  Fixpoint existing_prefix (v : version) (abs : bool) (rsegs : list seg) : epres :=
+    match lstat (abs, rev rsegs) with
+    | LYes => EFound (rev rsegs)
+    | LErr => if fix2 v then EClamp
+              else match rsegs with [] => ENone | _ :: r => existing_prefix v abs r end
+    | LNo => match rsegs with [] => ENone | _ :: r => existing_prefix v abs r end
+    end.
 
-  (* resolveWithinSandbox; fixd = false is the code before the repair (an unresolvable link in the
-     existing prefix handed back the candidate) *)
-  Definition resolve (fixd : bool) (cand root : path) : path :=
+  (* resolveWithinSandbox *)
+  Definition resolve (v : version) (cand root : path) : path :=
     match evalsym root with
     | None => cand
     | Some rroot =>
-      match existing_prefix (fst cand) (rev (snd cand)) with
-      | None => cand
-      | Some ex =>
+      match existing_prefix v (fst cand) (rev (snd cand)) with
+      | ENone => cand
+      | EClamp => root
+      | EFound ex =>
         match evalsym (fst cand, ex) with
-        | None => if fixd then root else cand
+        | None => if fix1 v then root else cand
         | Some res =>
           if negb (within res rroot) then root
           else match rel (fst cand, ex) cand with
@@ -117,21 +128,21 @@ Section Resolve.
     end.
 
   (* SandboxJoin for a non-empty root *)
-  Definition sandbox_join_p (fixd : bool) (root p : str) : path :=
+  Definition sandbox_join_p (v : version) (root p : str) : path :=
     let r := clean_str root in
     let cp := clean_str p in
-    if within cp r then resolve fixd cp r
+    if within cp r then resolve v cp r
     else let j := join_str r p in
-         if within j r then resolve fixd j r else r.
+         if within j r then resolve v j r else r.
 
-  Definition sandbox_join (fixd : bool) (root p : str) : str :=
-    if is_nil root then p else render (sandbox_join_p fixd root p).
+  Definition sandbox_join (v : version) (root p : str) : str :=
+    if is_nil root then p else render (sandbox_join_p v root p).
 End Resolve.
 
 (* no file system below the root: the pure string behaviour *)
-Definition no_lstat (_ : path) : bool := false.
+Definition no_lstat (_ : path) : lres := LNo.
 Definition no_evalsym (_ : path) : option path := None.
-Definition sandbox_join_lex (root p : str) : str := sandbox_join no_lstat no_evalsym true root p.
+Definition sandbox_join_lex (root p : str) : str := sandbox_join no_lstat no_evalsym V2 root p.
 
 (* ------------------------------------------------------------------ tree file system *)
 Inductive node := File | Dir (ents : list (seg * node)) | Link (tgt : str).
@@ -148,12 +159,12 @@ Fixpoint get (n : node) (p : list seg) : option node :=
               end
   end.
 
-Inductive kr := KFound (real : list seg) | KMissing (parent : list seg) (name : seg) | KFail.
+Inductive kr := KFound (real : list seg) | KMissing (parent : list seg) (name : seg) | KFail | KOut.   (* KOut: walk budget exhausted (ELOOP) *)
 
 (* kernel path walk from the real directory cur (a link-free list of names below "/") *)
 Fixpoint kres (fuel : nat) (fs : node) (follow_last : bool) (cur todo : list seg) : kr :=
   match fuel with
-  | O => KFail
+  | O => KOut
   | S f =>
     match todo with
     | [] => KFound cur
@@ -176,8 +187,8 @@ Fixpoint kres (fuel : nat) (fs : node) (follow_last : bool) (cur todo : list seg
   end.
 
 Definition FUEL : nat := 400.
-Definition lstat_t (fs : node) (p : path) : bool :=
-  fst p && match kres FUEL fs false [] (snd p) with KFound _ => true | _ => false end.
+Definition lstat_t (fs : node) (p : path) : lres :=
+  if fst p then match kres FUEL fs false [] (snd p) with KFound _ => LYes | KOut => LErr | _ => LNo end else LNo.
 Definition evalsym_t (fs : node) (p : path) : option path :=
   if fst p then match kres FUEL fs true [] (snd p) with KFound r => Some (true, r) | _ => None end
   else None.
@@ -186,12 +197,12 @@ Definition touch_t (fs : node) (p : path) : option path :=
   if fst p then match kres FUEL fs true [] (snd p) with
                 | KFound r => Some (true, r)
                 | KMissing par n => Some (true, par ++ [n])
-                | KFail => None
+                | _ => None
                 end
   else None.
 
-Definition sandbox_join_t (fixd : bool) (fs : node) (root p : str) : str :=
-  sandbox_join (lstat_t fs) (evalsym_t fs) fixd root p.
+Definition sandbox_join_t (v : version) (fs : node) (root p : str) : str :=
+  sandbox_join (lstat_t fs) (evalsym_t fs) v root p.
 
 (* prefix test used by the oracle: q lies at or below r *)
 Fixpoint is_prefix (r q : list seg) : bool :=
